@@ -87,6 +87,20 @@ Theorem c01_transport_in_contract :
     (length (non_data frames) <= 1)%nat -> carries frames (transport cuts pend frames).
 Proof. exact transport_carries. Qed.
 
+(* the encoder never polls its message source (the caller's request stream, the handler's
+   response stream) again after the source has answered None - for every schedule, role,
+   configuration and number of extra polls of the body.  [run_body_src] is Model/Encoder.v's run
+   over an explicit source with the ghost counter [s_after_end]; its poll results are those of
+   [run_body], which the theorems above are about.  (A legal stream may panic or yield further
+   items when polled after its end: the harness's scripted streams do, alternately.) *)
+Theorem c01_source_never_polled_after_end :
+  forall (msg enc : Type) (ser : msg -> option (list N)) (compress : enc -> list N -> list N)
+         (c : Encoder.cfg enc) (r : Encoder.role) (src : list (Encoder.sevent msg)) (extra : nat),
+    map fst (fst (Encoder.run_body_src msg enc ser compress c r src extra)) =
+      Encoder.run_body msg enc ser compress c r src extra /\
+    Encoder.s_after_end (snd (Encoder.run_body_src msg enc ser compress c r src extra)) = 0.
+Proof. exact source_never_polled_after_end. Qed.
+
 (* ---- non-vacuity ---------------------------------------------------------------------------- *)
 (* a raw codec (a message is its own serialization) and a toy compressor (reverse) meet the
    two laws *)
